@@ -2448,7 +2448,13 @@ int string_case_compare (parse_node_t ** c1, parse_node_t ** c2) {
   p1 = (i1 ? PROG_STRING (i1) : 0);
   p2 = (i2 ? PROG_STRING (i2) : 0);
 
-  return (int)(p1 - p2);
+  /* f_switch() compares the full addresses (and 0, for "case 0:", is the lowest):
+   * the difference of two addresses does not fit an int */
+  if (p1 < p2)
+    return -1;
+  if (p1 > p2)
+    return 1;
+  return 0;
 }
 
 void prepare_cases (parse_node_t * pn, size_t start) {
